@@ -34,6 +34,13 @@
        Modelled for archive keys of the class of K (string keys for std::string, integer keys for the integer types)
        that convert to pairwise different K: see `modelled`; the conversions between the classes (text <-> number,
        float / timestamp keys) and two archive keys that convert to the same K are NOT modelled.
+     std::multimap<K, V> (SerializeMultiMapImpl) -> OpenArrayScope, clear(); while !IsEnd(): a value-initialised
+       std::pair<const K, V> is loaded as the class { "key"; "value" }; if that returned true it is inserted with the
+       end as the hint: the pairs are ordered by key and pairs with equal keys keep the order of the document (571471d).
+       Content: the array of { key, value } objects in that order (what is saved);
+     std::set<K> / std::multiset<K> (SerializeSetImpl) -> OpenArrayScope, clear(); while !IsEnd(): a value-initialised K
+       is loaded (the result is ignored: an element that does not load inserts the value-initialised K) and inserted;
+       a set drops an element equal to one it has.  Content: the ordered array of the elements;
    THE TARGET HAS A CONTENT when the load starts: load_tr s i v loads the document value v into a target of
    shape s that holds i.  What is not loaded keeps its content: the members of a class, the elements of a
    fixed-size array, the components of a tuple, the mapped values of a map (OnlyExistKeys / UpdateKeys); a sequence
@@ -92,6 +99,19 @@ Fixpoint pairs_sorted (l : list (tv * tv)) : bool :=
 
 Inductive mmode := MClean | MOnlyExist | MUpdate.   (* MapLoadMode *)
 
+(* the member names of std::pair *)
+Definition key_name : list N := [0x6B; 0x65; 0x79].
+Definition value_name : list N := [0x76; 0x61; 0x6C; 0x75; 0x65].
+Definition pair_key (p : tv) : tv := match p with TObj ((_, k) :: _) => k | _ => TNil end.
+
+(* the elements of a set in strictly increasing / of a multiset in non-decreasing order; the pairs of a multimap in
+   non-decreasing order of their keys (every later one is not below an earlier one) *)
+Fixpoint set_sorted (l : list tv) : bool :=
+  match l with [] => true | k :: t => forallb (fun q => tkey_ltb k q) t && set_sorted t end.
+Fixpoint mset_sorted (l : list tv) : bool :=
+  match l with [] => true | k :: t => forallb (fun q => negb (tkey_ltb q k)) t && mset_sorted t end.
+Definition mm_sorted (l : list tv) : bool := mset_sorted (map pair_key l).
+
 Inductive shape :=
 | SNil                                   (* std::nullptr_t *)
 | SBool
@@ -106,7 +126,9 @@ Inductive shape :=
 | SArr (n : nat) (e : shape)             (* std::array<e, n>, e[n] *)
 | SVecBool                               (* std::vector<bool> *)
 | STuple (ss : list shape)               (* std::tuple<ss...> *)
-| SOpt (e : shape).                      (* std::optional<e>, std::unique_ptr<e>, std::shared_ptr<e> *)
+| SOpt (e : shape)                       (* std::optional<e>, std::unique_ptr<e>, std::shared_ptr<e> *)
+| SMMap (ks : kshape) (e : shape)        (* std::multimap<K, e> *)
+| SSet (multi : bool) (ks : kshape).     (* std::set<K> / std::multiset<K> *)
 
 Definition key_bytes (k : tv) : list N := match k with TStr s => s | _ => [] end.
 
@@ -185,6 +207,23 @@ Fixpoint has_shape (v : tv) (s : shape) {struct s} : bool :=
     | TNil => true
     | _ => match e with SNil | SOpt _ => false | _ => has_shape v e end
     end
+  | SMMap ks e =>
+    match v with
+    | TArr l =>
+      (fix all (l : list tv) : bool :=
+         match l with
+         | [] => true
+         | TObj [(TStr kn, k); (TStr vn, x)] :: t =>
+           bytes_eqb kn key_name && bytes_eqb vn value_name && key_has k ks && has_shape x e && all t
+         | _ => false
+         end) l && mm_sorted l
+    | _ => false
+    end
+  | SSet multi ks =>
+    match v with
+    | TArr l => forallb (fun k => key_has k ks) l && (if multi then mset_sorted l else set_sorted l)
+    | _ => false
+    end
   end.
 
 Definition ity_of_kind (k : ikind) : ity :=
@@ -223,7 +262,32 @@ Fixpoint default_of (s : shape) : tv :=
   | SVecBool => TArr []
   | STuple ss => TArr ((fix go (ss : list shape) : list tv := match ss with [] => [] | s' :: t => default_of s' :: go t end) ss)
   | SOpt _ => TNil
+  | SMMap _ _ | SSet _ _ => TArr []
   end.
+
+Definition kshape_shape (ks : kshape) : shape := match ks with KSStr => SStr | KSInt k => SInt k end.
+Definition kshape_target (ks : kshape) : target := match ks with KSStr => TgStr | KSInt k => TgInt (ity_of_kind k) end.
+Definition pair_ms (ks : kshape) (e : shape) : list (list N * shape) := [(key_name, kshape_shape ks); (value_name, e)].
+
+(* ---------- std::multimap / std::set: ordered insertion ---------- *)
+(* emplace_hint(end): behind every pair whose key is not above *)
+Fixpoint mm_insert (p : tv) (l : list tv) : list tv :=
+  match l with
+  | [] => [p]
+  | q :: t => if tkey_ltb (pair_key p) (pair_key q) then p :: l else q :: mm_insert p t
+  end.
+Definition mm_of (items : list tv) : list tv := fold_left (fun acc p => mm_insert p acc) items [].
+
+Fixpoint set_insert (multi : bool) (k : tv) (l : list tv) : list tv :=
+  match l with
+  | [] => [k]
+  | q :: t =>
+    if tkey_ltb k q then k :: l
+    else if multi || tkey_ltb q k then q :: set_insert multi k t
+    else l                                   (* a set has an equal element already *)
+  end.
+Definition set_of (multi : bool) (items : list tv) : list tv := fold_left (fun acc k => set_insert multi k acc) items [].
+Definition is_pair (p : tv) : bool := match p with TObj _ => true | _ => false end.
 
 (* ---------- std::map: lookup, insertion, key conversion ---------- *)
 (* equivalence under std::less *)
@@ -284,6 +348,14 @@ Fixpoint modelled (s : shape) (v : mpv) {struct s} : bool :=
   match s with
   | SVec e | SArr _ e => match v with MArr vs => forallb (modelled e) vs | _ => true end
   | SOpt e => modelled e v
+  | SMMap _ e =>
+    match v with
+    | MArr vs => forallb (fun x => match x with
+                                   | MMap kvs => match lookup (KStr value_name) kvs with Some y => modelled e y | None => true end
+                                   | _ => true
+                                   end) vs
+    | _ => true
+    end
   | STuple ss =>
     match v with
     | MArr vs =>
@@ -403,7 +475,7 @@ Section Load.
     end.
 
   Fixpoint absent_toks (s : shape) : list tok :=
-    match s with SOpt e => absent_toks e | SVec _ | SClass _ | SMap _ _ _ | SArr _ _ | SVecBool | STuple _ => [KNone] | SBytes => [KNone; KNone] | _ => [KFalse] end.
+    match s with SOpt e => absent_toks e | SMMap _ _ | SSet _ _ => [KNone] | SVec _ | SClass _ | SMap _ _ _ | SArr _ _ | SVecBool | STuple _ => [KNone] | SBytes => [KNone; KNone] | _ => [KFalse] end.
 
   (* SerializeMapImpl over the members of the document, in document order: key conversion, then (unless the mode is
      OnlyExistKeys and the map m0 has no such key) the load of the mapped value under the archive key (which finds the
@@ -566,6 +638,36 @@ Section Load.
       | _ => no_container v
       end
     | SOpt e => match load_tr e (opt_init e i) v with (t, r) => (t, opt_res r) end
+    | SMMap ks e =>
+      match v with
+      | MArr vs =>
+        (* each element: a value-initialised pair, loaded as the class { key; value }; inserted if that returned true *)
+        match elems_tr (SClass (pair_ms ks e))
+                (fun i0 x =>
+                   match x with
+                   | MMap kvs =>
+                     match members_tr (fun s' i' y => match target_of s' with Some t => scalar_tr s' t y | None => load_tr e i' y end)
+                                      kvs (obj_fields i0) (pair_ms ks e) with
+                     | (t, fields, None) => (KOpen :: t ++ [KClose], LOk (TObj fields))
+                     | (t, _, Some err) => (KOpen :: t, LErr err)
+                     end
+                   | _ => no_container x
+                   end)
+                (fun _ r => match r with LOk p => p | _ => TNil end) [] vs with
+        | (t, items, None) => (KOpen :: t ++ [KClose], LOk (TArr (mm_of (filter is_pair items))))
+        | (t, _, Some err) => (KOpen :: t, LErr err)
+        end
+      | _ => no_container v
+      end
+    | SSet multi ks =>
+      match v with
+      | MArr vs =>
+        match elems_tr (kshape_shape ks) (scalar_ld (kshape_shape ks) (kshape_target ks)) (fun _ r => fill (kshape_shape ks) r) [] vs with
+        | (t, items, None) => (KOpen :: t ++ [KClose], LOk (TArr (set_of multi items)))
+        | (t, _, Some err) => (KOpen :: t, LErr err)
+        end
+      | _ => no_container v
+      end
     | _ => match target_of s with Some t => scalar_tr s t v | None => ([], LNot) end
     end.
 
@@ -591,6 +693,8 @@ Definition arr_prog (prog_e : tv -> mpv -> list areq) (d : tv) (inits : list tv)
 
 Definition u8_prog (_ : tv) (_ : mpv) : list areq := [AGet (TgInt (mkIty false 8))].
 Definition bool_prog (_ : tv) (_ : mpv) : list areq := [AGet (TgInt (mkIty false 1))].
+
+Definition key_prog (ks : kshape) (_ : tv) (_ : mpv) : list areq := [AGet (kshape_target ks)].
 
 Fixpoint mk_vacts (l : list vact) : vacts := match l with [] => VANil | a :: t => VACons a (mk_vacts t) end.
 
@@ -663,6 +767,14 @@ Section Progs.
     | SVec e | SArr _ e => [AArr (arr_prog (elem_prog e) (default_of e) (arr_items i) v)]
     | SVecBool => [AArr (arr_prog bool_prog (TBool false) [] v)]
     | SOpt e => elem_prog e (opt_init e i) v
+    | SMMap ks e =>
+      [AArr (arr_prog (fun _ x => [AObj (match x with
+                                         | MMap kvs => mk_reqs (RGet (QStr key_name) (kshape_target ks)
+                                                                  :: member_prog e (default_of e) (QStr value_name) (lookup (KStr value_name) kvs))
+                                         | _ => RNil
+                                         end)])
+                      (default_of (SClass (pair_ms ks e))) [] v)]
+    | SSet _ ks => [AArr (arr_prog (key_prog ks) (default_of (kshape_shape ks)) [] v)]
     | STuple ss => [AArr (match v with MArr vs => mk_areqs (comps_prog o elem_prog ss (arr_items i) vs) | _ => ANil end)]
     | SBytes => match v with
                 | MBin bs => [ABin (length bs)]
@@ -681,6 +793,18 @@ Section Progs.
     | SVec e | SArr _ e => [RArr q (match ov with Some v => arr_prog (elem_prog e) (default_of e) (arr_items i) v | None => ANil end)]
     | SVecBool => [RArr q (match ov with Some v => arr_prog bool_prog (TBool false) [] v | None => ANil end)]
     | SOpt e => member_prog e (opt_init e i) q ov
+    | SMMap ks e =>
+      [RArr q (match ov with
+               | Some v =>
+                 arr_prog (fun _ x => [AObj (match x with
+                                             | MMap kvs => mk_reqs (RGet (QStr key_name) (kshape_target ks)
+                                                                      :: member_prog e (default_of e) (QStr value_name) (lookup (KStr value_name) kvs))
+                                             | _ => RNil
+                                             end)])
+                          (default_of (SClass (pair_ms ks e))) [] v
+               | None => ANil
+               end)]
+    | SSet _ ks => [RArr q (match ov with Some v => arr_prog (key_prog ks) (default_of (kshape_shape ks)) [] v | None => ANil end)]
     | STuple ss => [RArr q (match ov with Some (MArr vs) => mk_areqs (comps_prog o elem_prog ss (arr_items i) vs) | _ => ANil end)]
     | SBytes => match ov with
                 | Some (MBin bs) => [RBin q (length bs)]
@@ -701,6 +825,14 @@ Section Progs.
     | SVec e | SArr _ e => VArr (arr_prog (elem_prog e) (default_of e) (arr_items i) v)
     | SVecBool => VArr (arr_prog bool_prog (TBool false) [] v)
     | SOpt e => vact_prog e (opt_init e i) v
+    | SMMap ks e =>
+      VArr (arr_prog (fun _ x => [AObj (match x with
+                                        | MMap kvs => mk_reqs (RGet (QStr key_name) (kshape_target ks)
+                                                                 :: member_prog e (default_of e) (QStr value_name) (lookup (KStr value_name) kvs))
+                                        | _ => RNil
+                                        end)])
+                     (default_of (SClass (pair_ms ks e))) [] v)
+    | SSet _ ks => VArr (arr_prog (key_prog ks) (default_of (kshape_shape ks)) [] v)
     | STuple ss => VArr (match v with MArr vs => mk_areqs (comps_prog o elem_prog ss (arr_items i) vs) | _ => ANil end)
     | SBytes => match v with
                 | MBin bs => VBin (length bs)
@@ -873,7 +1005,7 @@ Fixpoint read_off (s : shape) (i : tv) (t : list tok) {struct s} : option (lres 
       end
     | _ => None
     end
-  | SMap _ _ _ => None    (* the keys are not among the tokens: see map_free *)
+  | SMap _ _ _ | SMMap _ _ | SSet _ _ => None    (* maps: the keys are not among the tokens; multimap / set: not done: see map_free *)
   | _ => read_scalar s i t
   end.
 
@@ -882,7 +1014,7 @@ Fixpoint map_free (s : shape) : bool :=
   match s with
   | SVec e | SArr _ e | SOpt e => map_free e
   | SClass ms => (fix go (ms : list (list N * shape)) : bool := match ms with [] => true | (_, s') :: t => map_free s' && go t end) ms
-  | SMap _ _ _ => false
+  | SMap _ _ _ | SMMap _ _ | SSet _ _ => false
   | STuple ss => (fix go (ss : list shape) : bool := match ss with [] => true | s' :: t => map_free s' && go t end) ss
   | _ => true
   end.
@@ -890,7 +1022,7 @@ Fixpoint map_free (s : shape) : bool :=
 (* every std::map of the shape is loaded with MapLoadMode::Clean *)
 Fixpoint clean_maps (s : shape) : bool :=
   match s with
-  | SVec e | SArr _ e | SOpt e => clean_maps e
+  | SVec e | SArr _ e | SOpt e | SMMap _ e => clean_maps e
   | SClass ms => (fix go (ms : list (list N * shape)) : bool := match ms with [] => true | (_, s') :: t => clean_maps s' && go t end) ms
   | STuple ss => (fix go (ss : list shape) : bool := match ss with [] => true | s' :: t => clean_maps s' && go t end) ss
   | SMap m _ e => (match m with MClean => true | _ => false end) && clean_maps e
@@ -905,6 +1037,7 @@ Fixpoint overwritten (s : shape) : bool :=
   | SVec e => overwritten e
   | SOpt e => overwritten e
   | SMap MClean _ e => overwritten e
+  | SMMap _ _ | SSet _ _ => true
   | SClass _ | SArr _ _ | STuple _ | SMap _ _ _ => false
   | _ => true
   end.
